@@ -11,7 +11,7 @@ demo.py, notes.md, meta.json).
 import json, os, shutil, subprocess, sys, time
 wt, deliver, sid = sys.argv[1:4]
 checks = sys.argv[4:]
-V = "/verif"
+V = os.environ.get("VERIF_HOME", "/verif")
 PY = "/venv/bin/python"
 def sh(cmd, **kw):
     return subprocess.run(cmd, stdout=subprocess.PIPE, stderr=subprocess.STDOUT, text=True, **kw)
